@@ -34,3 +34,59 @@ Theorem C07_from_bitvector : forall s0 bv, bv_inv bv ->
   exists d, da_new s0 bv = Val d /\ da_bv d = bv /\ C07_contract s0 d (bv_abs bv).
 Proof. exact (da_of_inv_correct select_in_word_correct popcount_correct). Qed.
 Print Assumptions C07_from_bitvector.
+
+From QwtModel Require Import Loops FnsBv FnsDa FnsBvOk FnsDaOk.
+
+(* ---- T5: the queries of DArray REGENERATED from src/darray/mod.rs on every run (tools/gen_fns.py -> Gen/FnsDa.v:
+   the private generic select<const BIT: bool> monomorphised for ones and zeros (sparse blocks through the signed
+   block inventory, dense blocks through the sub-block offsets and the word scan `loop`), select1 / select0 and their
+   unchecked variants, get, len, is_empty, count_ones, count_zeros; DArray<false> (functions g_da1_..) and
+   DArray<true> (g_da0_..)), applied to the fields of the structure the hand-modelled constructor builds, return
+   exactly the list specification for every bit sequence, for every fuel above the number of words; select0 without
+   select0 support is the documented panic. *)
+Definition C07_source_contract1 (d : darray) (s : list bool) : Prop :=
+  forall fuel, (S (length (bv_words (da_bv d))) <= fuel)%nat ->
+  let data := da_data d in let nbits := da_nbits d in
+  let on := inv_n_sets (da_ones d) in let ob := inv_block (da_ones d) in
+  let os := inv_sub (da_ones d) in let oo := inv_overflow (da_ones d) in
+  g_da1_len nbits = Val (len s) /\ g_da1_is_empty nbits = Val (len s =? 0) /\
+  g_da1_count_ones on = Val (countb s) /\ g_da1_count_zeros nbits on = Val (len s - countb s) /\
+  (forall i, g_da1_get data nbits i = Val (nthN s i)) /\
+  (forall i b, nthN s i = Some b -> g_da1_get_unchecked data i = Val b) /\
+  (forall k, g_da1_select1 fuel data on ob os oo k = Val (select1_spec s k)) /\
+  (forall k, g_da1_select1_unchecked fuel data on ob os oo k = ounwrap (select1_spec s k)) /\
+  (* documented panic: select0 on a DArray without select0 support *)
+  (forall k, g_da1_select0 fuel data (da_z_n_sets d) (da_z_block d) (da_z_sub d) (da_z_overflow d) k = Fault Panic) /\
+  (forall k, g_da1_select0_unchecked fuel data (da_z_n_sets d) (da_z_block d) (da_z_sub d) (da_z_overflow d) k
+             = Fault Panic).
+
+Definition C07_source_contract0 (d : darray) (s : list bool) : Prop :=
+  forall fuel, (S (length (bv_words (da_bv d))) <= fuel)%nat ->
+  let data := da_data d in let nbits := da_nbits d in
+  let on := inv_n_sets (da_ones d) in let ob := inv_block (da_ones d) in
+  let os := inv_sub (da_ones d) in let oo := inv_overflow (da_ones d) in
+  g_da0_len nbits = Val (len s) /\ g_da0_is_empty nbits = Val (len s =? 0) /\
+  g_da0_count_ones on = Val (countb s) /\ g_da0_count_zeros nbits on = Val (len s - countb s) /\
+  (forall i, g_da0_get data nbits i = Val (nthN s i)) /\
+  (forall i b, nthN s i = Some b -> g_da0_get_unchecked data i = Val b) /\
+  (forall k, g_da0_select1 fuel data on ob os oo k = Val (select1_spec s k)) /\
+  (forall k, g_da0_select1_unchecked fuel data on ob os oo k = ounwrap (select1_spec s k)) /\
+  (forall k, g_da0_select0 fuel data (da_z_n_sets d) (da_z_block d) (da_z_sub d) (da_z_overflow d) k
+             = Val (select0_spec s k)) /\
+  (forall k, g_da0_select0_unchecked fuel data (da_z_n_sets d) (da_z_block d) (da_z_sub d) (da_z_overflow d) k
+             = ounwrap (select0_spec s k)).
+
+Definition C07_source_contract (s0 : bool) (d : darray) (s : list bool) : Prop :=
+  if s0 then C07_source_contract0 d s else C07_source_contract1 d s.
+
+Theorem C07_source_from_bits : forall s0 bs, len bs < 2 ^ 63 ->
+  exists d, da_from_bools s0 bs = Val d /\ da_types_ok d /\ C07_source_contract s0 d bs.
+Proof. exact da_gen_of_bools. Qed.
+Print Assumptions C07_source_from_bits.
+Theorem C07_source_from_bitvector : forall s0 bv, BitVecP.bv_inv bv ->
+  exists d, da_new s0 bv = Val d /\ da_bv d = bv /\ da_types_ok d /\ C07_source_contract s0 d (bv_abs bv).
+Proof. exact da_gen_of_bitvector. Qed.
+Print Assumptions C07_source_from_bitvector.
+Theorem C07_source_get_word : forall b i, g_bv_get_word (chunks 8 (bv_words b)) i = bv_get_word b i.
+Proof. exact g_bv_get_word_ok. Qed.
+Print Assumptions C07_source_get_word.
